@@ -125,7 +125,8 @@ func Compress(msg *pb.XuperMessage) *pb.XuperMessage {
 
 // Decompress decompress msg
 func Decompress(msg *pb.XuperMessage) ([]byte, error) {
-	if msg == nil || msg.Header == nil || msg.Data == nil || msg.Data.MsgInfo == nil {
+	// a zero-length payload arrives as nil bytes once the message crossed the wire (proto3)
+	if msg == nil || msg.Header == nil || msg.Data == nil {
 		return []byte{}, errors.New("param error")
 	}
 
